@@ -7,7 +7,7 @@ import re
 from vlib import Broken, NCPU, log
 
 PROPS = {"C09": "model_checking"}
-HARNESS = ["zz_verif_routing_test.go", "zz_verif_life_test.go", "zz_verif_gossip_test.go"]
+HARNESS = ["zz_verif_routing_test.go", "zz_verif_life_test.go", "zz_verif_gossip_test.go", "zz_verif_gossipreal_test.go"]
 PROFILES = {
     "quick": dict(design=[("g_fix2.cfg", 300), ("g_fix2s.cfg", 300), ("g_fix3.cfg", 300), ("g_leave_own.cfg", 300), ("g_join2.cfg", 300),
                           ("g_join3.cfg", 300)],
@@ -83,7 +83,7 @@ def run(c, a):
         except ValueError:
             pass
     c.tlc("Gossip", "GossipRoute", "route.cfg", workers=1, timeout=120, line_cb=on_case, name="route-cases")
-    if len(cases) < 90:
+    if len(cases) < 200:
         raise Broken("routing decision table not generated (%d cases)" % len(cases))
     binpath = c.go_test_build("proxy", HARNESS, name="gossip")
     nshard = min(NCPU, max(2, len(scheds) // 25))
@@ -105,6 +105,15 @@ def run(c, a):
             raise Broken("harness shard failed rc=%s: %s" % (rc, out[-1500:]))
         for line in open(outp):
             events.append(json.loads(line))
+    # real memberlist instances over memberlist's in-process transport: real Join, real Leave, callbacks invoked by memberlist
+    rl_out = os.path.join(c.scratch, "realleave.ndjson")
+    rc, txt = c.go_test("proxy", HARNESS, "^TestVerifGossipRealLeave$", env={"VERIF_OUT": rl_out}, timeout=600, name="realleave")
+    if rc != 0 or not os.path.exists(rl_out):
+        raise Broken("real-memberlist probe failed: " + txt[-1500:])
+    real = [json.loads(l) for l in open(rl_out)]
+    if len(real) != 4:
+        raise Broken("real-memberlist probe returned %d records" % len(real))
+    events += real
     lines = [json.dumps(e) for e in events]
     ro = c.tlc("Gossip", "GossipObs", "obs.cfg", workers=1, timeout=1200, files={"trace.ndjson": "\n".join(lines) + "\n"}, name="obs")
     text = open(ro.out).read()
@@ -119,7 +128,7 @@ def run(c, a):
         if e["ev"] == "Config":
             runs.append([])
             cur = len(runs) - 1
-        if e["ev"] == "Route":
+        if e["ev"] in ("Route", "RealLeave"):
             run_of.append(None)
         else:
             run_of.append(cur)
@@ -133,6 +142,11 @@ def run(c, a):
         if clause == "route":
             c.violation({"module": "Gossip", "clause": "route"}, "routing decision differs from the spec: %s" % json.dumps(e),
                         {"kind": "route-case", "event": e})
+            continue
+        if clause == "realleave":
+            cause = "memberlist-callback-deadlock" if (not e["left"] or not e["responsive"]) else "left-instance-not-forgotten"
+            c.violation({"module": "Gossip", "clause": "realleave", "cause": cause},
+                        "real memberlist leave: %s" % json.dumps(e), {"kind": "real-leave", "event": e})
             continue
         ri = run_of[ln - 1]
         nviol_runs.add(ri)
